@@ -44,6 +44,7 @@ class DeliveryModel(Monitor):
         self.end_events = 0
         self.reset_events = 0
         self.data_after_reset = 0
+        self.duplicate_resets = 0
 
     def on_event(self, ep, ev, t):
         sim = self.sim
@@ -95,7 +96,8 @@ class DeliveryModel(Monitor):
             key = (recv, ev.stream_id)
             skey = (send, ev.stream_id)
             if key in self.reset_seen:
-                raise Violation("delivery:duplicate-reset", "%s stream %d reset twice" % (recv, ev.stream_id), None)
+                # the property bounds end-of-stream signals, not reset notifications: observation only
+                self.duplicate_resets += 1
             if skey not in sim.reset_by_sender and key not in sim.stop_requested:
                 raise Violation("delivery:spurious-reset", "%s stream %d: StreamReset but sender never reset and receiver never asked to stop" % (recv, ev.stream_id), None)
             self.reset_seen.add(key)
@@ -137,15 +139,23 @@ class DeliveryModel(Monitor):
             self.evaluations += 1
             d = self.delivered.get((recv, sid), 0)
             if d != w:
-                raise Violation("completion:bytes-not-delivered", "%s->%s stream %d: %d of %d bytes delivered by the end of the fair phase (t=%.1f, stop=%s)" % (side, recv, sid, d, w, sim.now, sim.stopped_reason), self._diag())
+                self._stall("bytes-not-delivered", "%s->%s stream %d: %d of %d bytes delivered by the end of the fair phase (t=%.1f, stop=%s)" % (side, recv, sid, d, w, sim.now, sim.stopped_reason))
             if (side, sid) in sim.fin_written and (recv, sid) not in self.ended:
-                raise Violation("completion:end-of-stream-not-delivered", "%s->%s stream %d: FIN written, all %d bytes delivered, no end_stream by the end of the fair phase" % (side, recv, sid, w), self._diag())
+                self._stall("end-of-stream-not-delivered", "%s->%s stream %d: FIN written, all %d bytes delivered, no end_stream by the end of the fair phase" % (side, recv, sid, w))
         for (side, uid), n in sim.pings.items():
             self.evaluations += 1
             if n == 0:
-                raise Violation("completion:ping-not-acknowledged", "%s ping %d never acknowledged" % (side, uid), self._diag())
+                self._stall("ping-not-acknowledged", "%s ping %d never acknowledged" % (side, uid))
             if n > 1:
                 raise Violation("completion:ping-acknowledged-twice", "%s ping %d acknowledged %d times" % (side, uid, n), None)
+
+    def _stall(self, what, text):
+        """Bounded progress failed. Diagnose the mechanism from hooked state so that distinct
+        defects get distinct signatures (a known finding must not mask another stall)."""
+        mech = diagnose_stall(self.sim)
+        if mech:
+            raise Violation("stall:" + mech, text + " [diagnosis: %s]" % mech, self._diag())
+        raise Violation("completion:" + what, text, self._diag())
 
     def _diag(self):
         sim = self.sim
@@ -238,3 +248,42 @@ class RecoveryLedger(Monitor):
             raise Violation("ledger:bytes-in-flight-mismatch", "%s: bytes_in_flight=%d, tracked in-flight packets sum to %d (after %s)" % (ep.name, bif, tracked, cause), None)
         if loss.congestion_window < 2 * ep.conn._max_datagram_size:
             raise Violation("ledger:cwnd-below-minimum", "%s: cwnd=%d < 2*%d" % (ep.name, loss.congestion_window, ep.conn._max_datagram_size), None)
+
+
+def diagnose_stall(sim):
+    """Mechanism of a failed bounded-progress obligation, read from hooked state (or None).
+
+    key-phase-desync:<side>-ahead-by-<n>: the 1-RTT send secret of one endpoint is n key
+    updates ahead of the receive secret of its peer, i.e. the peer cannot open its packets
+    (and, since aioquic drops the previous receive keys at once, it cannot open the peer's).
+    """
+    from . import refcrypto as rc
+
+    try:
+        from aioquic import tls
+
+        c, s = sim.client.conn, sim.server.conn
+        pairs = (("client", c._cryptos[tls.Epoch.ONE_RTT].send, s._cryptos[tls.Epoch.ONE_RTT].recv),
+                 ("server", s._cryptos[tls.Epoch.ONE_RTT].send, c._cryptos[tls.Epoch.ONE_RTT].recv))
+    except Exception:
+        return None
+    for side, snd, rcv in pairs:
+        if not snd.secret or not rcv.secret or snd.secret == rcv.secret:
+            continue
+        hash_name = "sha384" if len(rcv.secret) == 48 else "sha256"
+        for who, a, b in ((side, rcv.secret, snd.secret), ("peer-of-" + side, snd.secret, rcv.secret)):
+            cur = a
+            for n in range(1, 5):
+                cur = rc.hkdf_expand_label(hash_name, cur, rc.label(int(snd.version), "ku"), b"", len(cur))
+                if cur == b:
+                    return "key-phase-desync:%s-ahead-by-%d" % ("updater" if who == side else "receiver", n)
+        return "key-phase-desync:unrelated-secrets"
+    # a sender whose current path never got validated stays limited to 3x what it receives
+    for ep in (sim.server, sim.client):
+        try:
+            path = ep.conn._network_paths[0]
+            if not path.is_validated and ep.handshake_complete:
+                return "path-never-validated:%s:challenge-%s" % (ep.name, "sent" if path.local_challenge_sent else "not-sent")
+        except Exception:
+            pass
+    return None
